@@ -30,6 +30,33 @@ def check_panics(ctx, fb, cfg, fn, rule="R13-1"):
     paths = eng.run(it)
     tot, done, und = panics.analyse(paths)
     inst = "%s[%s]" % (fn, cfg)
+    # closures defined in the functions evaluated on these paths run on request data inside opaque iterator adaptors:
+    # analyse each with unconstrained parameters
+    fns = {it.path}
+    for p in paths:
+        for e in p.trace:
+            if e[0] == "enter":
+                fns.add(e[1])
+    todo = [c for f in sorted(fns) for c in fb.closures_of(f)]
+    seen_c = set()
+    while todo:
+        c = todo.pop()
+        if c.path in seen_c:
+            continue
+        seen_c.add(c.path)
+        ctx.touch(c)
+        e2 = Engine(fb, inline=opaque_rx(r"ZerokitMerkleTree>::root$"), max_depth=6)
+        cps = e2.run(c)
+        t2, d2, u2 = panics.analyse(cps)
+        tot += t2
+        done += d2
+        for u in u2:
+            u["text"] += " [inside closure %s, parameters unconstrained]" % c.path.split("::")[-2:]
+        und += u2
+        for p in cps:
+            for e in p.trace:
+                if e[0] == "enter":
+                    todo.extend(fb.closures_of(e[1]))
     if tot == 0:
         ctx.fail(rule, inst, "no panic site found on any path: anchor shape not recognised", loc(it))
         return
